@@ -813,3 +813,28 @@ Proof.
   split; [reflexivity|]. split; [reflexivity|]. split; [vm_compute; reflexivity|].
   eexists. split; vm_compute; reflexivity.
 Qed.
+
+(* ids and the feature entries exposed as attributes are ordinary metadata values: any JSON scalar, in particular the falsy ones,
+   comes back with its value and type (BioSeq.__init__ tests presence of 'id', not truthiness; seeded change C14-3) *)
+Definition w_falsy : obj :=
+  OBasket
+    [OSeq (bs "ACGT"%bs) [(K_id, OInt 0)] N_nt;
+     OSeq (bs "CCGT"%bs) [(K_id, ONone); (bs "score"%bs, OInt 0); (bs "flag"%bs, OBool false); (bs "tags"%bs, OList [])] N_nt;
+     OSeq (bs "AC"%bs) [(K_id, OBool false)] N_aa;
+     OSeq (bs "AC"%bs) [(K_id, OFloat (bs "0.0"%bs))] N_nt;
+     OSeq [] [(K_id, OStr []);
+              (bs "fts"%bs, OFts [OFeat [(K_type, OInt 0); (K_id, ONone); (bs "name"%bs, OBool false); (bs "seqid"%bs, OInt 0)]
+                                       [OLoc 1 4 S_plus 0 (Some [(K_id, OInt 0)])]])] N_nt]
+    [(K_id, OInt 0)].
+Lemma falsy_ids_kept :
+  wf_C14 w_falsy = true /\ strip w_falsy = w_falsy /\ read_sjson (write_sjson w_falsy) = Ok w_falsy /\
+  exists b', write_read w_falsy = Ok b' /\ pub b' = w_falsy.
+Proof.
+  split; [reflexivity|]. split; [reflexivity|]. split; [vm_compute; reflexivity|].
+  eexists. split; vm_compute; reflexivity.
+Qed.
+(* general form: whatever value the key 'id' carries, rebuilding the sequence leaves the metadata alone *)
+Lemma seq_id_any_value d m t :
+  conv_kv m = m -> has_key K_id m = true -> (str_eqb t N_nt || str_eqb t N_aa) = true ->
+  construct_seq [(K_data, OStr d); (K_meta, OAttr CMeta m); (K_type, OStr t)] = Ok (OSeq (upper d) m t).
+Proof. intros H1 H2 H3. rewrite <- (hook_seq d m t H1 H2 H3). reflexivity. Qed.
